@@ -18,7 +18,9 @@ CHECKS = {
         "under 6 branch-outcome schedules; larger skeletons are drawn by Hypothesis under all 8 "
         "configurations. The complete probe trace (markers, condition outcomes, iter/next "
         "calls, return probes, function results) must equal CPython's. Exhaustive within the "
-        "bound, sampled beyond it; no absence claim outside.",
+        "bound, sampled beyond it; no absence claim outside. For-loop iterables come in five forms "
+        "(plain, walrus, nested walrus, iterator object, getitem-only sequence); the falsy-body family "
+        "(28 values x 21 one/two-statement branch bodies x 6 shapes x 8 configurations) is complete.",
         "Trusts CPython as reference semantics and the probe kit's determinism. Loop bodies "
         "do not read the loop variable here (that is C01/C06).",
         "DESIGN.md section 3, C05"),
@@ -31,8 +33,12 @@ CHECKS = {
         "rendered so that every write uses a fresh integer and every scope logs the value it sees; all "
         "trees with one inner scope, a seeded fraction (quick) / all (thorough) of the trees with two, "
         "sampled chains of three and Hypothesis trees to depth 4 are run; log and globals must equal "
-        "CPython's. Illegal programs are dropped by compile(), raising originals are counted.",
-        "Roles are one per scope per name; host 3.12 only in this tier (other hosts: C15 machinery).",
+        "CPython's. Illegal programs are dropped by compile(), raising originals are counted. Further "
+        "families: pairs of single-name chains rendered into the SAME scopes (two captured-variable owners "
+        "on one chain), the small families once more with 12 distinguishable FALSY values, class towers; "
+        "host dimension incl. functions renamed onto CPython's implicit scope names.",
+        "Roles are one per scope per name (two in the two-name family). Shapes on which CPython 3.12/3.13 "
+        "itself misbehaves (comprehension-inlining bug) are filtered structurally.",
         "DESIGN.md section 3, C06"),
     "C09": (
         "complete sweep of the identifier x role x feature matrix + metamorphic alpha-renaming of "
@@ -108,7 +114,8 @@ CHECKS = {
         "the tree must be identical. Deeper trees are drawn by Hypothesis, every expression of "
         "the standard-library sources is swept, and trees emitted by the converter are checked "
         "with the round trip and against ast.unparse. Exhaustive for the composition family, "
-        "sampled beyond.",
+        "sampled beyond. Host dimension: every depth-2 and a seeded sample of depth-3 compositions "
+        "round-tripped by the unparser running under 3.10, 3.11 and 3.13 (worker processes).",
         "Trusts the host parser (3.12) and ast.dump-style field equality modulo ctx/kind/positions. "
         "Depth >= 4 is sampled only.",
         "DESIGN.md section 3, C03"),
@@ -121,7 +128,9 @@ CHECKS = {
         "alphabet; up to 14 syntactic positions incl. nested f-strings and format specs; bytes; "
         "numbers incl. overflow, imaginary, > 4300-digit ints; conversion x spec x value x nesting "
         "f-string shapes) plus Hypothesis text and all stdlib literals. The unparsed text must be "
-        "one physical line and parse back to the identical constants and f-string structure.",
+        "one physical line and parse back to the identical constants and f-string structure. Host "
+        "dimension: the f-string shapes and the positions of a seeded sample of the strings under "
+        "3.10, 3.11 and 3.13.",
         "Trusts the host parser (3.12, PEP 701) for building input trees; values compared by type and repr.",
         "DESIGN.md section 3, C04"),
     "C01": (
@@ -198,7 +207,9 @@ CHECKS = {
         "size <= 2 from 26 member kinds, placed at module level, in a function, in a class, in a class "
         "in a function, global-declared in a function and captured by a closure; the harness compares "
         "MRO, bases, metaclass, user attributes, where the name is bound and the results of a fixed "
-        "call script against the class CPython builds. Quick: all size-<=1 sets + every 6th size-2 set.",
+        "call script against the class CPython builds; also after an earlier class statement of the same "
+        "name in the same scope and as one alternative of an if/else. Quick: all size-<=1 sets + every 9th "
+        "size-2 set. Host dimension: a stride of the product and every member kind as whole programs.",
         "Class-creation hooks that look at the namespace and class metadata are outside the property.",
         "DESIGN.md section 3, C12"),
     "C16": (
@@ -210,7 +221,9 @@ CHECKS = {
         "exactly the UTF-8 bytes of the library result under the modelled options (stdout: plus "
         "newline), and the text must print what the script prints. Invalid lists (unknown names "
         "incl. real attribute names, malformed items, illegal values; alone or after valid items) "
-        "must exit non-zero leaving the output path absent / byte-identical.",
+        "must exit non-zero leaving the output path absent / byte-identical. Every pool program goes "
+        "through every option combination; the command line of each other host interpreter (3.10, 3.11, "
+        "3.13) is compared with the library call under that same interpreter.",
         "Trusts the in-process library call as the reference (its purity is C10's subject).",
         "DESIGN.md section 3, C16"),
     "C17": (
@@ -221,7 +234,9 @@ CHECKS = {
         "chains, displays, f-string fields, block/def/lambda/comprehension nesting) are probed at "
         "N = 10..1000 (quick) / ..10000 (thorough) and nesting 5..95 under unparser x wrapper "
         "(x if-style where the if lowering nests), one fresh process per cell with the default "
-        "recursion limit; a family stops at the first size CPython refuses for the source itself.",
+        "recursion limit; a family stops at the first size CPython refuses for the source itself. "
+        "94 families by now (a left chain of every operator, chains in every expression position, "
+        "towers); dense sweep of EVERY block length 1..560 (thorough 1..1000).",
         "Thresholds depend on the interpreter build; sizes are compared at schedule points only. "
         "Two open findings (stdlib recursive unparser, chain_call depth) are excluded structurally.",
         "DESIGN.md section 3, C17"),
